@@ -203,7 +203,7 @@ theorem go_null_only_if_final (c : Comp σ π) (L : Limits) (clock : Clock) {Goo
     (hnull : (go c L clock fuel e b nodes0).move = 0) : Final c.keys b :=
   (go_score c L clock hl sl fuel e b hg nodes0 hd htt hsane hA).2.1 hnull
 
-/-- The same two statements WITHOUT `GoSane`, for parameter sets with `WindowSize = 44` whose reverse
+/-- The same two statements WITHOUT `GoSane`, for parameter sets with a safe window size (`WSafe`: 39..44 or 78..88; the real one is 44) whose reverse
     futility margin cannot wrap at depths ≤ 2 (`AspLaws`; Proofs/SearchScoreFree.lean): un-aborted
     results lie within `±Inf` and `factor` doubles at every failure, so at any failure `factor ≤ 512`
     and every window of every aspiration chain lies within `±(Inf + 512·44)`; the root analysis is
@@ -345,7 +345,7 @@ theorem go_final_score_tt (c : Comp σ π) (L : Limits) (clock : Clock) {Good : 
         (b.inCheck b.stm = true ∧ MoveGen.playable c.keys b = [] ∧ (go c L clock fuel e b nodes0).score = -Inf)) :=
   (go_score2 c L clock hl sl fuel e b hg nodes0 hd htt hsane hA).2.2 hfin hdone
 
-/-- … and WITHOUT `GoSane` (`AspLaws`: `WindowSize = 44`): the only run-level hypothesis left is that no
+/-- … and WITHOUT `GoSane` (`AspLaws`: `WSafe windowSize`): the only run-level hypothesis left is that no
     out-of-band value was handed to a table store. -/
 theorem go_keeps_table_invariant_free_tt (c : Comp σ π) (L : Limits) (clock : Clock) {Good : Board → Prop}
     {TTok : σ → Prop} {μ : Board → Nat} (hl : Laws c Good) (sl : ScoreLaws c Good TTok μ) (al : AspLaws c) (fuel : Nat)
